@@ -306,6 +306,10 @@ pub enum AOp {
 #[derive(Serialize, Deserialize, Clone, Debug, Hash, PartialEq, Eq)]
 pub struct AsyncCase {
     pub ops: Vec<AOp>,
+    /// the whole case runs from tear-down code executed while the thread unwinds from a failed
+    /// test body (`std::thread::panicking()` is true throughout)
+    #[serde(default)]
+    pub in_teardown: bool,
 }
 
 #[derive(Serialize, Deserialize, Clone, Debug, Default)]
@@ -340,6 +344,14 @@ pub struct AsyncObs {
 }
 
 pub fn execute(c: &AsyncCase) -> AsyncObs {
+    if c.in_teardown {
+        crate::worker::while_unwinding(|| execute_inner(c))
+    } else {
+        execute_inner(c)
+    }
+}
+
+fn execute_inner(c: &AsyncCase) -> AsyncObs {
     let mut o = AsyncObs::default();
     ip::plan_reset();
     let mut inj: Option<InjectorPP> = None;
@@ -570,8 +582,12 @@ pub fn strategy() -> impl Strategy<Value = AsyncCase> {
                 x => x,
             })
             .collect();
-        AsyncCase { ops }
+        AsyncCase { ops, in_teardown: false }
     })
+    .prop_flat_map(|c| (Just(c), prop::bool::weighted(0.07)).prop_map(|(mut c, t)| {
+        c.in_teardown = t;
+        c
+    }))
 }
 
 pub fn judge(rec: &mut Recorder, c: &AsyncCase, ex: Exec, _hello: &Value) -> Result<(), String> {
@@ -603,6 +619,9 @@ pub fn judge(rec: &mut Recorder, c: &AsyncCase, ex: Exec, _hello: &Value) -> Res
         }
     };
     rec.eval(|| json!({"case": c, "awaits": o.awaits.iter().take(12).map(|a| format!("fn{} arg {} thread {} -> {} in {} poll(s)", a.i, a.arg, a.thread, a.value.chars().take(40).collect::<String>(), a.polls)).collect::<Vec<_>>()}));
+    if c.in_teardown {
+        rec.class("case-inside-tear-down-while-unwinding");
+    }
     let sig = |s: &str| format!("C14/native/{s}");
     if !o.install_panics.is_empty() {
         return rec.fail(&sig("install-refused"), format!("{:?}; case {c:?}", o.install_panics));
